@@ -1051,6 +1051,7 @@ func (e *Exec) RunPath(prefix []int64) *PathResult {
 	e.clockLast = nil
 	e.hostState = map[string]interface{}{}
 	e.summaryDepth = 0
+	e.mapOrderAll = e.cfg.MapOrderAll
 	e.solver.Push()
 	pr := &PathResult{}
 	entry := e.prog.entryFunc(e.cfg.Entry)
